@@ -564,3 +564,20 @@ impl<'iter, 'ast, 'decls> ResolverContext<'iter, 'ast, 'decls>
         Ok(addr)
     }
 }
+
+
+
+#[cfg(hlorenzi_customasm_verif)]
+pub fn verif_bits_until_alignment(
+    report: &mut diagn::Report,
+    span: diagn::Span,
+    cur_address_in_bits: util::BigInt,
+    alignment: usize)
+    -> Result<usize, ()>
+{
+    bits_until_alignment(
+        report,
+        span,
+        cur_address_in_bits,
+        alignment)
+}
